@@ -194,6 +194,26 @@ EXTRA6 = {
 }
 for _pid, (_t, _n) in EXTRA6.items():
     EXTRA[_pid] = (EXTRA.get(_pid, ("", ""))[0] + _t, EXTRA.get(_pid, ("", ""))[1] + _n)
+EXTRA7 = {
+ "C02": (" The mesh replay includes a fluid whose diffusivity falls with pressure (scaled diffusivity above 1 below the initial state).", ""),
+ "C04": (" Stored levels read after recovery_factor() (the levels stay the updates simulate stored).", ""),
+ "C05": (" The scaling law at M = 0; bounds assigned to the forecaster's public field after construction are the ones the fit uses.", ""),
+ "C07": (" The oil identity on arrays with the initial GOR a Python int.", ""),
+ "C08": (" A path of pseudopressure_Hussainy that answers without quadrature is admissible only for p = p_standard; the stand-alone transform with its columns passed as pandas Series.", ""),
+ "C09": (" rescale_pseudopressure rejects pressures outside the table.", ""),
+ "C10": (" The interpolator is compared beyond both ends of the simulated range.", ""),
+ "C11": (" A second call of the gas facade methods on the same object with another pseudocritical point; a 2 x 2 Fortran-ordered array through the functions that take 2-D input.", ""),
+ "C12": (" The array entry points on a pressure Series labelled 1, 0.", ""),
+ "C13": (" The array form of dB_w/dp: element-wise the scalar result, the caller's grid left alone.", ""),
+ "C14": (" A second call with the same rejected arguments is rejected too; the two-phase helper with S_wc = Sw = 0 written as Python ints.", ""),
+ "C15": (" Rel-perm callables that return the array they are given (the caller's saturations are left alone); initial pressure strictly between two rows: m_i in [1, (1 + r)^2 / (4 r)].", ""),
+ "C16": (" The storage derivative for a Python-int pressure.", ""),
+ "C17": (" Recovery with an explicit time argument before any simulation raises; a constant schedule on an object configured with another frac-face pressure equals the scalar setting at the schedule's value.", ""),
+ "C18": (" The objective evaluated twice on a dict-of-arrays PVT table with the library's own FlowProperties (executed symbolically): same flow properties, table left alone; a productive row with a gap in another column is kept.", ""),
+ "C20": (" The comparison plot with a producing day that has no pressure reading, and with a gap in a column the figure does not use.", ""),
+}
+for _pid, (_t, _n) in EXTRA7.items():
+    EXTRA[_pid] = (EXTRA.get(_pid, ("", ""))[0] + _t, EXTRA.get(_pid, ("", ""))[1] + _n)
 for _pid, (_t, _n) in EXTRA.items():
     CHECKS[_pid]["text"] += _t
     CHECKS[_pid]["note"] += _n
